@@ -95,6 +95,14 @@ pub fn representative(r: &mut Rng) -> Vec<(String, Address)> {
 
 /// Does any parser of the library accept `s`?
 fn parses(s: &str) -> Option<&'static str> {
+    // a parser that panics on a corrupted string has not rejected it (and is a finding in its own right)
+    match guard(|| parses_inner(s)) {
+        Ok(r) => r,
+        Err(_) => Some("PANIC in a parser"),
+    }
+}
+
+fn parses_inner(s: &str) -> Option<&'static str> {
     if Address::from_str(s).is_ok() {
         return Some("from_str");
     }
